@@ -28,10 +28,14 @@ func (d *Decoder) readType() (string, error) {
 		d.typList = append(d.typList, t)
 		return t, nil
 	}
-	i, err := d.readInt(_tagRead)
+	// a type given as an int refers back to an earlier type string; the tag is already consumed
+	i, err := d.readInt(int32(tag))
 	if err != nil {
 		return "", newCodecError("readType", err)
 	}
 	index := int(i)
+	if index < 0 || index >= len(d.typList) {
+		return "", newCodecError("readType", "type ref index %d out of bound, max %d", index, len(d.typList))
+	}
 	return d.typList[index], nil
 }
